@@ -22,6 +22,15 @@ ASSUMPTIONS = [
 BASES = [("billion kcals", "thousand tons", "thousand tons"), ("percent people fed",) * 3, ("ratio",) * 3,
          ("kcals per person per day", "grams per person per day", "grams per person per day"), ("widgets", "gadgets", "gizmos")]
 CONVERTIBLE = BASES[:2] + BASES[3:4]
+# targets for conversions: also triples whose fat and protein units differ
+K_UNITS = ["billion kcals", "percent people fed", "kcals per person per day", "billion people fed", "million dry caloric tons"]
+G_UNITS = ["thousand tons", "percent people fed", "grams per person per day", "million tons", "billion people fed", "effective kcals per person per day"]
+
+
+def pick_target(r):
+    if r.random() < 0.5:
+        return r.choice(CONVERTIBLE)
+    return (r.choice(K_UNITS), r.choice(G_UNITS), r.choice(G_UNITS))
 PREDICATES2 = ["all_greater_than", "all_less_than", "any_greater_than", "any_less_than", "all_greater_than_or_equal_to",
                "all_less_than_or_equal_to", "any_greater_than_or_equal_to", "any_less_than_or_equal_to"]
 PREDICATES1 = ["all_equals_zero", "any_equals_zero", "all_greater_than_zero", "any_greater_than_zero", "all_greater_than_or_equal_to_zero", "is_never_negative"]
@@ -357,7 +366,7 @@ class Seq:
                     if tuple(st) not in CONVERTIBLE:
                         self.ops[op] -= 1
                         continue
-                    tgt = r.choice(CONVERTIBLE)
+                    tgt = pick_target(r)
                     res = a.in_units(*tgt)
                     self.check_result(op, res, [t + " each month" for t in tgt], True, [a], [sa], "-> %s" % (tgt[0],))
                     self.check_converted_values(op, a, res, st, tgt)
@@ -391,7 +400,7 @@ class Seq:
                 if tuple(strip(strip(labels(res)), " per month")) in CONVERTIBLE:
                     sr = snap(res)
                     try:
-                        tgt = r.choice(CONVERTIBLE)
+                        tgt = pick_target(r)
                         conv = res.in_units(*tgt)
                         suffix = " each month" if " each month" in labels(res)[0] else (" per month" if " per month" in labels(res)[0] else "")
                         self.ops["in_units_of_derived"] += 1
